@@ -128,6 +128,46 @@ Proof.
   set (c := polyLoop poly (Rabs v) b 1) in *. assert (0 <= v * v) by nra. nra.
 Qed.
 
+(* actuator-inherited damping: non-negative coefficients stay non-negative for gears of ANY sign and size *)
+Lemma actDampingStep_nonneg (acc : R * list R) (g d : R) (dp : list R) :
+  0 <= fst acc -> List.Forall (fun c : R => 0 <= c) (snd acc) -> 0 <= d -> List.Forall (fun c : R => 0 <= c) dp ->
+  0 <= fst (actDampingStep acc (g, d, dp)) /\ List.Forall (fun c : R => 0 <= c) (snd (actDampingStep acc (g, d, dp))).
+Proof.
+  intros H0 Hp Hd Hdp. unfold actDampingStep. cbn [fst snd]. num_R. split.
+  - assert (0 <= d * (g * g)) by (apply Rmult_le_pos; [lra|nra]). lra.
+  - revert dp Hdp. induction Hp as [|c r Hc Hr IH]; intros dp Hdp; [constructor|].
+    destruct dp as [|x dp]; [constructor|]. inversion Hdp; subst. cbn [combine map]. constructor.
+    + cbn [fst snd]. assert (0 <= x * (g * g)) by (apply Rmult_le_pos; [lra|nra]). lra.
+    + apply IH. assumption.
+Qed.
+
+Lemma effDamping_nonneg (b0 : R) (poly0 : list R) (acts : list (R * R * list R)) :
+  0 <= b0 -> List.Forall (fun c : R => 0 <= c) poly0 ->
+  List.Forall (fun a : R * R * list R => 0 <= snd (fst a) /\ List.Forall (fun c : R => 0 <= c) (snd a)) acts ->
+  0 <= fst (effDamping b0 poly0 acts) /\ List.Forall (fun c : R => 0 <= c) (snd (effDamping b0 poly0 acts)).
+Proof.
+  intros Hb Hp Ha. unfold effDamping. cbn [fst snd]. num_R.
+  assert (G : forall acc : R * list R, 0 <= fst acc -> List.Forall (fun c : R => 0 <= c) (snd acc) ->
+              0 <= fst (fold_left actDampingStep acts acc) /\ List.Forall (fun c : R => 0 <= c) (snd (fold_left actDampingStep acts acc))).
+  { induction Ha as [|a r Hx Hr IH]; intros acc H0 H1; [split; assumption|].
+    cbn [fold_left]. destruct a as [[g d] dp]. cbn [fst snd] in Hx. destruct Hx as [Hd Hdp].
+    destruct (actDampingStep_nonneg acc g d dp H0 H1 Hd Hdp) as [A B]. apply IH; assumption. }
+  destruct (G (0, poly0)) as [A B]; cbn [fst snd]; [lra|exact Hp|]. split; [lra|exact B].
+Qed.
+
+Lemma actuator_damping_dissipates (b0 : R) (poly0 : list R) (acts : list (R * R * list R)) (v : R) :
+  0 <= b0 -> List.Forall (fun c : R => 0 <= c) poly0 ->
+  List.Forall (fun a : R * R * list R => 0 <= snd (fst a) /\ List.Forall (fun c : R => 0 <= c) (snd a)) acts ->
+  v * damperForce (fst (effDamping b0 poly0 acts)) (snd (effDamping b0 poly0 acts)) v <= 0.
+Proof.
+  intros Hb Hp Ha. destruct (effDamping_nonneg b0 poly0 acts Hb Hp Ha) as [A B]. apply damping_dissipates; assumption.
+Qed.
+
+(* closed form for two actuators on one joint: b0 + d1 g1^2 + d2 g2^2 *)
+Lemma effDamping_two (b0 g1 d1 g2 d2 : R) :
+  fst (effDamping b0 [] [(g1, d1, []); (g2, d2, [])]) = b0 + d1 * (g1 * g1) + d2 * (g2 * g2).
+Proof. unfold effDamping, actDampingStep. cbn [fold_left fst snd]. num_R. ring. Qed.
+
 Definition dotr (a b : list R) : R := fold_left (fun s xy => s + fst xy * snd xy) (combine a b) 0.
 
 Lemma dotr_scl_gen (J qvel : list R) (f : R) :
